@@ -17,7 +17,7 @@ for pid in ids:
             "property_id": pid,
             "quick_cmd": "./check %s quick" % pid,
             "thorough_cmd": "./check %s thorough" % pid,
-            "evidence_file": "evidence/%s.json" % pid,
+            "evidence_file": "/verif/evidence/%s.json" % pid,
             "replay_cmd_template": "./check --replay {path}",
             "engine": "rvmon",
             "level_claimed": {"category": PROPS[pid]["level"], "text": t["level_text"], "design_ref": "DESIGN.md §2 " + pid},
